@@ -18,7 +18,8 @@ RULE = (
     "(2) permutation of the atoms inside every residue; (3) order-preserving chain renaming and per-chain strictly "
     "increasing residue renumbering (constant offset when gap detection is on); (4) re-serialisation of the same "
     "atoms (coordinates rounded to 3 decimals) as PDB and as mmCIF by the harness emitters, read back through "
-    "read_3d_structure; combinations of (1)-(3) are drawn together. Oracle (metamorphic): the complete result of "
+    "read_3d_structure, at the deposited position and (4') after a drawn axis rotation + translation by 0/-150/-300/-700/"
+    "+300/+900/+1500 A per axis, so that coordinates fill their PDB columns (<= -100, >= 1000); combinations of (1)-(3) are drawn together. Oracle (metamorphic): the complete result of "
     "extract_secondary_structure (base pairs with LW+Saenger, stackings with topology, BPh, BR, BPSEQ, dot-bracket, "
     "extended dot-bracket, element lists), with and without gap detection, is equal after mapping identities "
     "through the drawn renaming. A difference is reported only when the minimum margin of every decision quantity "
@@ -192,6 +193,20 @@ def oracle_formats(case):
     if atoms is None:
         info["skipped"] = True
         return []
+    if case.get("rot") is not None or case.get("shift"):
+        # the format relation composed with a rigid motion: the same moved atoms, rounded once to 3 decimals, are
+        # written in both formats (coordinates must still fit the PDB columns)
+        R = gen3d.AXIS_ROTATIONS[case["rot"]] if case.get("rot") is not None else np.eye(3)
+        P = np.array([[a["x"], a["y"], a["z"]] for a in atoms])
+        c = P.mean(axis=0)
+        Q = (P - c) @ np.array(R).T + c + np.array(case.get("shift") or [0.0, 0.0, 0.0])
+        if Q.min() < -999.0 or Q.max() > 9999.0:
+            info["skipped"] = True
+            return []
+        for a, q in zip(atoms, Q):
+            a["x"], a["y"], a["z"] = round(float(q[0]), 3), round(float(q[1]), 3), round(float(q[2]), 3)
+        info["moved"] = True
+        info["wide-coordinates"] = bool(Q.min() <= -100.0 or Q.max() >= 1000.0)
     os.makedirs(WORK_DIR, exist_ok=True)
     base = os.path.join(WORK_DIR, f"c05_{os.getpid()}")
     results = {}
@@ -252,6 +267,10 @@ def classify(case):
         nontrivial = bool(info.get("nt")) and len(labs) > 1
     else:
         nontrivial = bool(info.get("nt"))
+        if info.get("moved"):
+            labs.append("formats-after-rigid-motion")
+        if info.get("wide-coordinates"):
+            labs.append("coordinate<=-100-or>=1000")
     if info.get("undecided"):
         labs.append("undecided-margin")
     if info.get("skipped"):
@@ -279,15 +298,25 @@ def st_transform(files):
     })
 
 
+def st_formats(files):
+    from hypothesis import strategies as st
+
+    comp = st.sampled_from([0.0, 0.0, -150.0, -300.0, -700.0, 300.0, 900.0, 1500.0])
+    return st.fixed_dictionaries({"kind": st.just("formats"), "file": st.sampled_from(files), "null": st.sampled_from(["?", "."]),
+                                  "rot": st.one_of(st.none(), st.integers(0, 23)), "shift": st.lists(comp, min_size=3, max_size=3)})
+
+
 def plan(tier, seed):
     if tier == "quick":
         files = corpus.SMALL + ["1ehz-assembly-1.cif", "488d.pdb"]
         specs = [{"kind": "transform", "files": files, "examples": 40, "seed": seed * 1000 + k} for k in range(16)]
         specs += [{"kind": "formats", "files": [f]} for f in files]
+        specs += [{"kind": "formats-moved", "files": corpus.SMALL, "examples": 12, "seed": seed * 1000 + 500 + k} for k in range(8)]
     else:
         files = corpus.SMALL + corpus.MEDIUM + ["4qln.cif", "6g90_1.cif"]
         specs = [{"kind": "transform", "files": files, "examples": 90, "seed": seed * 1000 + k} for k in range(48)]
         specs += [{"kind": "formats", "files": [f]} for f in corpus.all_files()]
+        specs += [{"kind": "formats-moved", "files": corpus.SMALL + corpus.MEDIUM, "examples": 60, "seed": seed * 1000 + 500 + k} for k in range(16)]
     return specs
 
 
@@ -296,7 +325,10 @@ def run_shard(spec) -> ShardResult:
 
     res = ShardResult()
     files = [f for f in spec["files"] if f in corpus.all_files()]
-    if spec["kind"] == "transform":
+    if spec["kind"] == "formats-moved":
+        run_hypothesis(PROP_ID, st_formats(files), oracle, seed=spec["seed"], max_examples=spec["examples"], result=res,
+                       to_json=to_json, classify=classify, shrink=False)
+    elif spec["kind"] == "transform":
         run_hypothesis(PROP_ID, st_transform(files), oracle, seed=spec["seed"], max_examples=spec["examples"], result=res,
                        to_json=to_json, classify=classify, shrink=False)
     else:
